@@ -102,15 +102,36 @@ def expand(ob, extra_terms=(), relevant=False):
     return hyps, goal
 
 
-_IMUL = None
+_IMUL = None; _RMUL = None; _RDIV = None
 
 
-def abstract_nl(exprs):
-    """replace non-linear integer products by an uninterpreted function (sound for validity: every model of the
-    original formulas is a model of the abstraction with imul read as multiplication)"""
-    global _IMUL
-    if _IMUL is None: _IMUL = z3.Function('imul', z3.IntSort(), z3.IntSort(), z3.IntSort())
+def abstract_nl(exprs, reals=True):
+    """replace non-linear products (and divisions by non-constants) by uninterpreted functions (sound for validity: every
+    model of the original formulas is a model of the abstraction with the functions read as multiplication / division)"""
+    global _IMUL, _RMUL, _RDIV
+    if _IMUL is None:
+        _IMUL = z3.Function('imul', z3.IntSort(), z3.IntSort(), z3.IntSort())
+        _RMUL = z3.Function('rmul', z3.RealSort(), z3.RealSort(), z3.RealSort())
+        _RDIV = z3.Function('rdiv', z3.RealSort(), z3.RealSort(), z3.RealSort())
     memo = {}
+
+    def isnum(c):
+        return z3.is_int_value(c) or z3.is_rational_value(c)
+
+    def flat(t, isint):
+        """(numeric coefficient as a z3 numeral product list, atoms) of an already rebuilt term seen as a product"""
+        if isnum(t): return [t], []
+        if z3.is_app(t):
+            d = t.decl()
+            if d.kind() == z3.Z3_OP_MUL or d.eq(_IMUL) or d.eq(_RMUL):
+                ns, at = [], []
+                for c in t.children():
+                    n2, a2 = flat(c, isint); ns += n2; at += a2
+                return ns, at
+            if d.kind() == z3.Z3_OP_UMINUS:
+                n2, a2 = flat(t.arg(0), isint)
+                return [z3.IntVal(-1) if isint else z3.RealVal(-1)] + n2, a2
+        return [], [t]
 
     def rb(e):
         k = e.get_id()
@@ -118,14 +139,24 @@ def abstract_nl(exprs):
         if not z3.is_app(e) or e.num_args() == 0:
             memo[k] = e; return e
         ch = [rb(c) for c in e.children()]
-        if e.decl().kind() == z3.Z3_OP_MUL and z3.is_int(e):
-            nums = [c for c in ch if z3.is_int_value(c)]
-            syms = sorted([c for c in ch if not z3.is_int_value(c)], key=lambda t: t.get_id())
+        kind = e.decl().kind()
+        if kind == z3.Z3_OP_MUL and (z3.is_int(e) or (reals and z3.is_real(e))):
+            isint = z3.is_int(e)
+            nums, syms = [], []
+            for c in ch:
+                n2, a2 = flat(c, isint); nums += n2; syms += a2
+            syms = sorted(syms, key=lambda t: t.get_id())
             if len(syms) >= 2:
+                f = _IMUL if isint else _RMUL
                 acc = syms[0]
-                for t in syms[1:]: acc = _IMUL(acc, t)
-                for c in nums: acc = c * acc
+                for t in syms[1:]: acc = f(acc, t)
+                if nums:
+                    coef = nums[0]
+                    for c in nums[1:]: coef = coef * c
+                    acc = z3.simplify(coef) * acc
                 memo[k] = acc; return acc
+        if kind == z3.Z3_OP_DIV and reals and z3.is_real(e) and not isnum(ch[1]):
+            r = _RDIV(ch[0], ch[1]); memo[k] = r; return r
         try:
             r = e.decl()(*ch)
         except Exception:
